@@ -124,7 +124,21 @@ func genEexecPlain(c *rt.C, env *psEnv, full []poolItem) ([]byte, bool) {
 		out.WriteString("mark ")
 	}
 	for i := 0; i < n; i++ {
-		switch rng.IntN(6) {
+		switch rng.IntN(7) {
+		case 6:
+			// comment lines inside the section (never on its first line, where the
+			// column depends on the four prefix bytes): plain and structured ones,
+			// with a form feed and further tokens on the same line
+			switch rng.IntN(4) {
+			case 0:
+				fmt.Fprintf(&out, "%% plain comment %d\n", i)
+			case 1:
+				fmt.Fprintf(&out, "%%%%Key%d: value\n%%%%+ more\n", i)
+			case 2:
+				fmt.Fprintf(&out, "%%%%Key%d: value\f %d %d\n", i, 30+i, 40+i)
+			default:
+				fmt.Fprintf(&out, "%d %% comment\f %d\r%%%% not at column 0? %d\n", i, 50+i, 60+i)
+			}
 		case 0, 1:
 			g := &g3{rng: rng, feat: map[string]bool{}, maxD: 2}
 			txt := ref.RenderTokens(g.body(0, 0))
@@ -346,6 +360,10 @@ func runC05(r *rt.Runner) {
 			}
 			// NumOps differs legitimately (eexec itself, currentfile); DSC lists
 			// are equal because no DSC lines are generated inside sections
+			// (the list of structured comments is handed over by Execute only when a
+			// call returns nil, which the hand-fed run's closefile call does not: the
+			// lists are not compared, the tokens behind a comment's form feed are)
+			i1.DSC, i2.DSC = nil, nil
 			d1 := libStateDigest(env.bt, i1)
 			d2 := libStateDigest(env.bt, i2)
 			if d1 != d2 {
